@@ -103,7 +103,9 @@ def matchNumeric : List Char → Option (List DU × Nat)
 
 /-! ## named references -/
 
-def lookupName (n : List Char) : Option (List Nat) := C03Html5Entities.entities.lookup n
+/-- look a name (with its trailing `;` if any) up in the table of named character references
+    (keys are stored as lists of ASCII codes) -/
+def lookupName (n : List Char) : Option (List Nat) := C03Html5Entities.entities.lookup (n.map Char.toNat)
 
 /-- the longest prefix of `run` of length ≤ `k` that is a name of the table: (length, code points) -/
 def longestFrom (run : List Char) : Nat → Option (Nat × List Nat)
